@@ -1,2 +1,93 @@
-From Coq Require Import ZArith List Bool.
-From Falcon.C14 Require Import Model Spec.
+(* C14 — property theorems only.  Each is closed by [exact] of a lemma from a Proofs*.v file
+   and followed by Print Assumptions. *)
+From Coq Require Import ZArith NArith List Bool Arith.
+From Falcon.lib Require Import PyStr.
+From Falcon.C14 Require Import Spec Oracle Model ModelAsync ProofsDefs ProofsSync ProofsOracle ProofsRefuted.
+Import ListNotations.
+Local Open Scope nat_scope.
+
+(* ---------------------------------------------------------------- sync reader *)
+
+(* _perform_read: for EVERY conforming source (any short-read schedule) it returns exactly the
+   next min(n, budget) bytes of the stream, and never asks beyond _max_bytes_remaining *)
+Theorem C14_sync_perform_read : forall S rd sabs, good_source S rd sabs ->
+  forall st n out st', perform_read S rd st n = (out, st') ->
+  out = firstn n (tail S sabs st) /\ tail S sabs st' = skipn n (tail S sabs st) /\
+  buf st' = buf st /\ blen st' = blen st /\ bpos st' = bpos st.
+Proof. exact perform_read_spec. Qed.
+Print Assumptions C14_sync_perform_read.
+
+(* refinement, one operation: read / peek / pipe / exhaust on a reader state standing for
+   the cursor [abs st] do what the cursor does, for every source chunking and chunk size *)
+Theorem C14_sync_refine_op_basic : forall S rd sabs cs, good_source S rd sabs -> 0 < cs ->
+  forall st o r st', basic_op o = true -> Inv S st -> run_op S rd cs true st o = (r, st') ->
+  sp_op cs o (abs S sabs st) = (r, abs S sabs st') /\ Inv S st'.
+Proof. exact refine_op_basic. Qed.
+Print Assumptions C14_sync_refine_op_basic.
+
+(* FULL STATEMENT (target):  forall cs maxlen data sched h, 0 < cs -> valid_delims cs h ->
+     sync_history cs maxlen data sched h = map o_res (spec_history cs maxlen data h)
+   for every history h (all operations, nested delimit/pop).
+   Proved part: histories of read / peek / pipe / exhaust on the top-level reader. *)
+Theorem C14_sync_refine_history_read_peek_partial : forall cs maxlen data sched ops,
+  0 < cs -> forallb basic_op ops = true ->
+  sync_history cs maxlen data sched (flat ops) = map o_res (spec_history cs maxlen data (flat ops)).
+Proof. exact refine_history_basic. Qed.
+Print Assumptions C14_sync_refine_history_read_peek_partial.
+
+(* the scripted source of the harness is a conforming source *)
+Theorem C14_scripted_source_conforms : good_source source src_read sdata.
+Proof. exact src_read_good. Qed.
+Print Assumptions C14_scripted_source_conforms.
+
+(* the oracle evaluated on the real readers accepts the model (same partial domain) *)
+Theorem C14_oracle_sound_sync_partial : forall cs maxlen data sched ops,
+  0 < cs -> forallb basic_op ops = true ->
+  oracle true cs maxlen data (flat ops)
+         (map as_obs (sync_history cs maxlen data sched (flat ops))) = None.
+Proof. exact oracle_sound_sync_basic. Qed.
+Print Assumptions C14_oracle_sound_sync_partial.
+
+(* an observation the oracle accepts is exactly the cursor's result list *)
+Theorem C14_oracle_exact : forall impl spec i,
+  first_bad i true impl spec = None -> map o_res impl = map o_res spec.
+Proof. exact first_bad_sync_None. Qed.
+Print Assumptions C14_oracle_exact.
+
+(* ---------------------------------------------------------------- defects of the code as found *)
+
+Theorem C14_async_history_refuted_before_fix :
+  exists cs F chunks h,
+    0 < cs /\ length chunks + length (concat chunks) < F /\
+    map o_res (async_history cs false F chunks h)
+    <> map o_res (spec_history cs (length (concat chunks)) (concat chunks) h).
+Proof. exact async_history_refuted_before_fix. Qed.
+Print Assumptions C14_async_history_refuted_before_fix.
+
+Theorem C14_async_tell_refuted_before_fix :
+  exists cs F chunks h,
+    0 < cs /\ length chunks + length (concat chunks) < F /\
+    map o_tell (async_history cs false F chunks h)
+    <> map o_tell (spec_history cs (length (concat chunks)) (concat chunks) h).
+Proof. exact async_tell_refuted_before_fix. Qed.
+Print Assumptions C14_async_tell_refuted_before_fix.
+
+Theorem C14_sync_inv_refuted_before_fix :
+  exists cs st n, 0 < cs /\ Inv source st /\ ~ Inv source (snd (read_ source src_read cs false st n)).
+Proof. exact sync_inv_refuted_before_fix. Qed.
+Print Assumptions C14_sync_inv_refuted_before_fix.
+
+(* ---------------------------------------------------------------- non-vacuity *)
+Example C14_async_witness_after_fix :
+  async_history 4 true 20 [b_hello] witness_hist = spec_history 4 5 b_hello witness_hist.
+Proof. exact async_witness_after_fix. Qed.
+
+Example C14_sync_example :
+  let data := [97; 13; 10; 45; 45; 98; 13; 10; 99]%N in
+  let h := [HOp (OPeek (Some 2)); HOp (ORead (Some 3)); HOp (OReadUntil [13; 10]%N None true);
+            HDelimit [99]%N; HOp (ORead None); HPop; HOp OPipe] in
+  sync_history 2 9 data [0; 0; 1] h = map o_res (spec_history 2 9 data h)
+  /\ map o_res (spec_history 2 9 data h)
+     = [RBytes [97; 13]; RBytes [97; 13; 10]; RBytes [45; 45; 98]; RBytes []; RBytes []; RBytes [];
+        RBytes [99]]%N.
+Proof. vm_compute. split; reflexivity. Qed.
